@@ -536,4 +536,19 @@ B('G-slices-differ', ['C13'], 'frame.py', 'Frame._axis_group_sort_items',
 N('G-swap-eq-operands', ['C13'], 'series.py', 'Series._axis_group_labels_items',
   'selection = locations == idx', 'selection = idx == locations')
 
+# ---------------------------------------------------------------------------------- block offsets (C03), resolver coverage (C07, C08)
+B('O-continue-skips-advance', ['C03'], 'type_blocks.py', 'TypeBlocks.extract_bloc',
+  '                t_start = t_end\n                continue', '                continue', 'I.block-offset-discipline', 'extract_bloc')
+B('O-new-continue-before-advance', ['C03'], 'type_blocks.py', 'TypeBlocks._assign_from_bloc_by_unit',
+  '                yield block\n            else:', '                yield block\n                continue\n            else:', 'I.block-offset-discipline', '_assign_from_bloc_by_unit')
+N('O-advance-augmented', ['C03'], 'type_blocks.py', 'TypeBlocks._assign_from_bloc_by_unit',
+  't_start = t_end # always update start', 't_start += t_end - t_start')
+N('O-continue-with-advance', ['C03'], 'type_blocks.py', 'TypeBlocks._assign_from_bloc_by_unit',
+  '                yield block\n            else:', '                yield block\n                t_start = t_end\n                continue\n            else:')
+B('F1-resolver-first-member-only', ['C07', 'C08'], 'type_blocks.py', 'TypeBlocks._assign_from_iloc_by_blocks',
+  'assigned_dtype = resolve_dtype_iter(\n                            chain((a.dtype for a in assigned_blocks), (b.dtype,)))',
+  'assigned_dtype = resolve_dtype(assigned_blocks[0].dtype, b.dtype)', 'F1.resolver-coverage', '_assign_from_iloc_by_blocks')
+N('F1-resolver-chain-swapped', ['C07', 'C08'], 'type_blocks.py', 'TypeBlocks._assign_from_iloc_by_blocks',
+  'chain((a.dtype for a in assigned_blocks), (b.dtype,))', 'chain((b.dtype,), (a.dtype for a in assigned_blocks))')
+
 VARIANTS = V
